@@ -91,6 +91,63 @@ COUNTS = {"i8": ["0i8", "1i8", "-1i8", "5i8", "127i8", "-128i8", "21i8"], "u8": 
           "plural": ["0u32", "1u32", "2u32", "3u32", "5u32", "11u32", "21u32", "100u32"]}
 
 
+TYPE_LIMITS = {"i8": (-128, 127), "u8": (0, 255), "i16": (-2 ** 15, 2 ** 15 - 1), "u16": (0, 2 ** 16 - 1), "i32": (-2 ** 31, 2 ** 31 - 1),
+               "u32": (0, 2 ** 32 - 1), "i64": (-2 ** 63, 2 ** 63 - 1), "u64": (0, 2 ** 64 - 1)}
+
+
+def boundary_counts(v, count_key, ty):
+    """Rust literals of type `ty` on and next to every bound written in the ranges of `v` that count `count_key`"""
+    from fractions import Fraction
+    bounds = []
+
+    def rng_bounds(r):
+        if r["r"] == "exact":
+            bounds.append(r["v"])
+        elif r["r"] == "multi":
+            for x in r["items"]:
+                rng_bounds(x)
+        elif r["r"] != "fallback":
+            if r["start"] is not None:
+                bounds.append(r["start"])
+            if r["end"].get("v") is not None:
+                bounds.append(r["end"]["v"])
+
+    def walk(x):
+        t = x.get("t")
+        if t == "ranges":
+            if x["count_key"] == count_key:
+                for r, _ in x["branches"]:
+                    rng_bounds(r)
+            for _, b in x["branches"]:
+                walk(b)
+        elif t == "comp":
+            walk(x["inner"])
+        elif t == "bloc":
+            for y in x["items"]:
+                walk(y)
+        elif t == "plurals":
+            for _, b in x["forms"]:
+                walk(b)
+            walk(x["other"])
+        elif t == "fk" and x.get("set"):
+            walk(x["inner"])
+    walk(v)
+    out = []
+    for b in bounds:
+        q = Fraction(b)
+        if ty in ("f32", "f64"):
+            for d in (0, Fraction(1, 2), -Fraction(1, 2)):
+                w = q + d
+                if w.denominator in (1, 2, 4, 8) and abs(w) < 10 ** 6:
+                    out.append(("%s%s" % (float(w), ty)).replace("-0.0f", "0.0f"))
+        elif q.denominator == 1:
+            lo, hi = TYPE_LIMITS[ty]
+            for w in (int(q) - 1, int(q), int(q) + 1):
+                if lo <= w <= hi:
+                    out.append("%d%s" % (w, ty))
+    return out
+
+
 def count_value(lit):
     m = re.match(r"(-?[0-9.]+)[iuf]", lit)
     from fractions import Fraction
@@ -149,6 +206,11 @@ def build_probes(rng, p, res, oracle, per_key=3, flavours=("string", "display", 
                             short = name[len("var_"):]
                             if info["count"] is not None:
                                 lit = rng.pick(COUNTS[info["count"]])
+                                if info["count"] != "plural" and rng.chance(1, 2):
+                                    # a count on / next to a bound of one of the key's range branches (in the locale rendered)
+                                    bl = boundary_counts(v, name, info["count"])
+                                    if bl:
+                                        lit = rng.pick(bl)
                                 count_of[name] = lit
                                 var_vals[name] = count_display(lit)
                                 args_rs.append((rust_ident(short), lit, True))
